@@ -19,7 +19,7 @@ ASSUMPTIONS = ['protobuf client/listener pair not runnable (google.protobuf abse
 
 
 def configs(tier, seed):
-  n = 3 if tier == 'quick' else 10
+  n = 4 if tier == 'quick' else 8
   return [dict(name='%s/%d' % (p, s), proto=p, shard=s) for p in ('pickle', 'line') for s in range(n)]
 
 
@@ -53,7 +53,7 @@ def run_config(cfg, res):
   conn = fake.connectors[0]
   transport = conn.h_connection_made()
   listener = P.MetricPickleReceiver if cfg['proto'] == 'pickle' else P.MetricLineReceiver
-  ncases = 60 if cfg['tier'] == 'quick' else 200
+  ncases = 500 if cfg['tier'] == 'quick' else 8000
   for case in range(ncases):
     batch = r.choice([1, 2, 3, 7, 500])
     settings['MAX_DATAPOINTS_PER_MESSAGE'] = batch
